@@ -978,22 +978,24 @@ def run(tier, seed):
     bad_init = sorted(x for x in INIT_STATUS if x != 'INIT OK')
     if bad_init:
         R.notes.append(f'constructing Tautology() raised ({bad_init}); rules examined on an instance without the shipped proofs')
-    if problems and not R.violations and not R.known_hit:
-        c, i, mo, (sig, desc) = problems[0]
+    known_sigs = {k_['signature'] for k_ in R.known}
+    unexplained = [x for x in problems if x[3][0] not in known_sigs]
+    if unexplained and not R.violations:
+        c, i, mo, (sig, desc) = unexplained[0]
         R.violation(sig, desc, dict(method=c['py']['call'], python_call=c['py'], model_request=c.get('ml'),
                                     expected_conclusion_hex=hexp(c['expect']) if c.get('expect') else None,
                                     implementation=i, model=mo, found_in=c['origin'], attribution='none'))
-    if bad_init and not R.violations and not R.known_hit:
+    if bad_init and not R.violations:
         R.violation('Tautology(): constructor raises', 'the library module cannot be instantiated: ' + ', '.join(bad_init),
                     {'python_call': None, 'how': 'proof_generation.tautology.Tautology()', 'status': bad_init})
-    if proof_broken and not R.violations and not R.known_hit:
+    if proof_broken and not R.violations:
         R.violation('proof-broken', 'translation or Coq proof stage failed and no failing input was found',
                     {'no_failing_input_found': True, 'theorem_or_correspondence': 'Gen/PropLibSpec.v / Props/C10.v',
                      'translation_abort': abort, 'log': P['log'][-3000:], 'cases_searched': n_cases})
     if model_broken and not R.violations:
         R.violation('correspondence-broken', 'the extracted model (ocaml/mlref_lib) could not be built: no tie this run',
                     {'no_failing_input_found': True, 'theorem_or_correspondence': 'Extract/ExtractLib.v -> mlref_lib', 'log': model_broken})
-    if mismatches and not R.violations and not R.known_hit:
+    if mismatches and not R.violations:
         R.violation('correspondence-broken', 'extracted model and implementation disagree',
                     {'no_failing_input_found': True, 'theorem_or_correspondence': 'mlref_lib vs proplib_runner.py',
                      'first_mismatches': mismatches[:5], 'n_mismatches': len(mismatches)})
@@ -1021,7 +1023,9 @@ def run(tier, seed):
                 elif f not in ('Props/C10.v',) and not (f_bad != 'Gen/PropLibSpec.v' and f == 'Gen/PropLibSpec.v'):
                     good += len(C.STMT.findall(src))
             extra['discharged'] = good
-            m2 = re.search(r'Lemma (\w+)', '\n'.join(open(os.path.join(C.COQ, f_bad)).read().split('\n')[max(0, ln - 3):ln]))
+            m2 = None
+            for cand in re.finditer(r'^Lemma (\w+)', '\n'.join(open(os.path.join(C.COQ, f_bad)).read().split('\n')[:ln]), re.M):
+                m2 = cand
             extra['first_failing_lemma'] = m2.group(1) if m2 else None
     extra.update(methods_translated=len([m for m in idx['methods'] if m['spec'] != 'primitive']) if idx else 0,
                  methods_excluded_algorithmic=idx['excluded'] if idx else None,
